@@ -1,4 +1,5 @@
 import Gomacro.EndToEnd
+import Gomacro.Unquote
 /-!
 # Decoding: `json.Unmarshal` with the generated wrappers, for the fragment of the end-to-end theorems
 
@@ -138,7 +139,8 @@ def decodeFields (env : Env) (w : Wrappers) : Nat → Bool → List Field → Li
       match kvs.lookup (fkey f) with
       | none => (decodeFields env w fuel shadow fs kvs).map fun vs => (f.name, zeroVal env fuel f.ty) :: vs
       | some x =>
-        match decode env w fuel (shadow && isUnionTy env f.ty) f.ty x, decodeFields env w fuel shadow fs kvs with
+        -- under the `string` option a field of scalar kind is read from the content of a JSON string
+        match (Unquote.fieldDoc env f x).bind (decode env w fuel (shadow && isUnionTy env f.ty) f.ty), decodeFields env w fuel shadow fs kvs with
         | some v, some vs => some ((f.name, v) :: vs)
         | _, _ => none
     else decodeFields env w fuel shadow fs kvs
@@ -259,10 +261,18 @@ def shapeRT : Ty → Bool
   | .basic _ .none => false
   | _ => true
 
+/-- a field under a key encoding/json accepts -/
+def keyOkN (f : Field) : Bool :=
+  (Tags.namePart (Tags.get f.tag "json") == "" || Tags.isValidTag (Tags.namePart (Tags.get f.tag "json")))
+
 /-- a field without the `string` option, under a key encoding/json accepts -/
 def fieldOkN (f : Field) : Bool :=
-  !(tagOptions f.tag).contains "string" &&
-  (Tags.namePart (Tags.get f.tag "json") == "" || Tags.isValidTag (Tags.namePart (Tags.get f.tag "json")))
+  !(tagOptions f.tag).contains "string" && keyOkN f
+
+/-- a field under a key encoding/json accepts; the `string` option on the types the model decides it
+for (`Unquote.stringOk`) -/
+def fieldOkS (env : Env) (f : Field) : Bool :=
+  (!(tagOptions f.tag).contains "string" || Unquote.stringOk env f.ty) && keyOkN f
 
 def isOmit (f : Field) : Bool := (tagOptions f.tag).contains "omitempty"
 
@@ -280,7 +290,7 @@ def declOkN (env : Env) (w : Wrappers) (d : Decl) : Bool :=
     else shapeRT u && noUnion env u
   | .enum _ _ _ _ => true
   | .struct fs _ _ =>
-    (serialised fs).all (fun f => fieldOkN f && shapeRT f.ty && (isUnionTy env f.ty || noUnion env f.ty)) &&
+    (serialised fs).all (fun f => fieldOkS env f && shapeRT f.ty && (isUnionTy env f.ty || noUnion env f.ty)) &&
     ((serialised fs).map fun f => Tags.jsonName f.tag f.name).Nodup &&
     ((serialised fs).map (·.name)).Nodup &&
     ((serialised fs).any (fun f => isUnionTy env f.ty) → w.structs.contains d.q)
